@@ -418,8 +418,18 @@ def run_job(job):
                 saved = {}
                 for nm_ in names:
                     for f_ in sorted(_glob.glob(os.path.join("results", "%s_%s_*.csv" % (ttl, nm_)))):
-                        saved[os.path.basename(f_)[len(ttl) + 1:]] = _hl.sha256(open(f_, "rb").read()).hexdigest()[:16]
+                        saved[os.path.basename(f_)[len(ttl) + 1 + len(nm_) + 1:]] = _hl.sha256(open(f_, "rb").read()).hexdigest()[:16]
                 rec["saved_tables"] = saved
+                # ... and for the countries that ran in the same call before it (a table of theirs is final once it is written)
+                others = {}
+                for nm_, v_ in out[3].items():
+                    if nm_ in names:
+                        continue
+                    code_ = getattr(v_, "constants", {}).get("inputs", {}).get("COUNTRY_CODE") or nm_
+                    others[code_] = {os.path.basename(f_)[len(ttl) + 1 + len(nm_) + 1:]: _hl.sha256(open(f_, "rb").read()).hexdigest()[:16]
+                                     for f_ in sorted(_glob.glob(os.path.join("results", "%s_%s_*.csv" % (ttl, nm_))))}
+                if others:
+                    rec["saved_tables_of_others"] = others
         except BaseException as _ex:  # noqa
             rec["saved_tables"] = "unreadable: " + repr(_ex)[:80]
         world_map = None
